@@ -96,6 +96,7 @@ def plan(tier):
     if tier == 'quick':
         for mode in ('seq', 'pool'):
             out.append(('java', (2, 4), mode, False, 7, 'single'))
+            out.append(('java', (2, 3), mode, False, 7, 'single'))   # last batch shorter than --batch
             out.append(('java', (3, 3), mode, False, 7, 'single'))
         out.append(('kotlin', (2, 3), 'seq', False, 7, 'single'))
         out.append(('java', (2, 2), 'seq', True, 7, 'single'))
